@@ -20,7 +20,7 @@ def T(*names):
 
 PROPS = {
  'C12': dict(
-    tasks=T('mirvc:specs_tower', 'search:specs_tower', 'mirvc:specs_lib', 'lsearch:all', 'ground:all'),
+    tasks=T('verus:sop', 'kani:arkff', 'mirvc:specs_tower', 'search:specs_tower', 'mirvc:specs_lib', 'lsearch:all', 'ground:all'),
     trusted_base=[A['A2'], A['A7'], A['A9'], A['L2']],
     assumptions=[A['A2'], A['A6'], A['A7'], A['A9']],
     explanation='every function of fields/fq2.rs verified against Fq[u]/(u^2+2) from its rustc MIR with callees replaced by contracts'),
@@ -50,7 +50,7 @@ PROPS = {
     assumptions=[A['A3'], A['A4'], A['A7']],
     explanation='AffineG::new: Ok iff y^2 = x^3 + b and (check_order => [r-1]P + P = O), for both values of check_order'),
  'C06': dict(
-    tasks=(lambda tier: ['kani:limbs_linear', 'mirvc:specs_lib', 'mirvc:specs_loops', 'lsearch:all', 'ground:all'] if tier == 'quick' else ['kani:limbs_linear', 'mirvc:specs_lib', 'mirvc:specs_loops', 'lsearch:all', 'kani:canon', 'ground:all']),
+    tasks=(lambda tier: ['verus:sop', 'kani:arkff', 'kani:limbs_linear', 'mirvc:specs_lib', 'mirvc:specs_loops', 'lsearch:all', 'ground:all'] if tier == 'quick' else ['verus:sop', 'kani:arkff', 'kani:limbs_linear', 'mirvc:specs_lib', 'mirvc:specs_loops', 'lsearch:all', 'kani:canon', 'ground:all']),
     trusted_base=[A['A1'], A['A6'], A['A7']],
     assumptions=[A['A1'], A['A6'], A['A7']],
     explanation='(under construction) limb-level contracts'),
@@ -75,15 +75,15 @@ PROPS = {
     assumptions=[A['A7'], A['A9']],
     explanation='(under construction) encoder contracts'),
  'C07': dict(
-    tasks=(lambda tier: ['kani:limbs_linear', 'mirvc:specs_lib', 'lsearch:all', 'ground:all'] if tier == 'quick' else ['kani:limbs_linear', 'mirvc:specs_lib', 'lsearch:all', 'kani:canon', 'ground:all']),
+    tasks=(lambda tier: ['verus:sop', 'kani:arkff', 'kani:limbs_linear', 'mirvc:specs_lib', 'lsearch:all', 'ground:all'] if tier == 'quick' else ['verus:sop', 'kani:arkff', 'kani:limbs_linear', 'mirvc:specs_lib', 'lsearch:all', 'kani:canon', 'ground:all']),
     trusted_base=[A['A6'], A['A7']],
     assumptions=[A['A6'], A['A7']],
     explanation='(under construction) canonicity'),
  'C14': dict(
-    tasks=T('lsearch:all', 'mirvc:specs_lib', 'csearch:debug', 'ground:all'),
+    tasks=T('mirvc:specs_sqrt', 'mirvc:specs_loops', 'lsearch:all', 'mirvc:specs_lib', 'csearch:debug', 'ground:all'),
     trusted_base=[A['A2'], A['A7']],
     assumptions=[A['A2'], A['A7']],
-    explanation='(under construction) square roots'),
+    explanation='Fq::sqrt in the exponent domain under Euler\'s three cases: sqrt(0) = 0, Some(s) with s*s = x on every path for non-zero squares (sound + complete), None for non-squares; pow by the loop-invariant obligation; Fq2::sqrt: every returned root squares to x (17 paths, incl. the zero-imaginary branch), sqrt(0) = 0; completeness of Fq2::sqrt is not decided by proof (search only); decoders rely on it through csearch'),
  'C18': dict(
     tasks=(lambda tier: ['kani:limbs_linear', 'kani:bytes', 'kani:dec_quick', 'kani:enc', 'kani:dispatch', 'psearch:all'] if tier == 'quick' else
            ['kani:limbs_linear', 'kani:bytes', 'kani:dec_quick', 'kani:enc', 'kani:dispatch', 'kani:canon', 'kani:dec_strict', 'psearch:all']),
